@@ -15,6 +15,7 @@ import (
 	"math/rand/v2"
 	"net/netip"
 	"net/url"
+	"os"
 	"path"
 	"runtime"
 	"strings"
@@ -398,6 +399,10 @@ type srvVariant struct {
 	profilesOff bool
 	st          *fixture
 	lines       []string
+	// Campaigns wired / listener: the server group and server of the
+	// configuration file and its bind addresses.
+	group, name string
+	binds       []netip.AddrPort
 }
 
 var protoNames = map[agd.Protocol]string{agd.ProtoInvalid: "invalid", agd.ProtoDNS: "dns", agd.ProtoDNSCrypt: "dnscrypt",
@@ -451,6 +456,9 @@ type fixture struct {
 	st   *stack.Stack
 	cur  *dbState
 	last seen
+	// wired, if not nil, is the service built by the real builder that stands
+	// in for st (campaigns wired and listener).
+	wired *wiredBuilt
 
 	// Overlap campaign: the first request that reaches blockAt ("handler":
 	// the handler behind all middlewares, "db": a profile-database lookup)
@@ -762,6 +770,11 @@ func call(v *srvVariant, q *request, ri *dnsserver.RequestInfo, id uint16, o *ou
 			o.panicked = fmt.Sprint(p)
 		}
 	}()
+	if v.st.wired != nil {
+		v.st.wired.handle(v, q, ri, id, o)
+
+		return
+	}
 	m := q.msg()
 	m.Id = id
 	rport := uint16(1234)
@@ -778,6 +791,11 @@ func call(v *srvVariant, q *request, ri *dnsserver.RequestInfo, id uint16, o *ou
 
 // takeEffects moves the billing and query-log records written so far into o.
 func takeEffects(fx *fixture, o *outcome) {
+	if fx.wired != nil {
+		fx.wired.take(o)
+
+		return
+	}
 	logs, bills := fx.st.Effects.TakeLog()
 	for _, b := range bills {
 		o.billDevs = append(o.billDevs, b.Dev)
@@ -1015,6 +1033,11 @@ func carriesOwnID(v *srvVariant, q *request, p *agd.Profile, d *agd.Device) bool
 	}
 }
 
+// served describes what the caller of the handler got.
+func served(o *outcome) string {
+	return fmt.Sprintf(" (answer written: %v, handler error: %q)", o.resp, o.errText)
+}
+
 type checker struct {
 	r *hlib.Result
 }
@@ -1058,7 +1081,7 @@ func (c *checker) oracle(v *srvVariant, db *dbState, q *request, o *outcome, rep
 	}
 	if v.profilesOff {
 		if recognised || !o.reached || !o.resp {
-			r.Violate("recognised-with-profiles-disabled", proto+" request on a server group without profiles was not served as anonymous: "+o.canon(), replay())
+			r.Violate("recognised-with-profiles-disabled", proto+" request on a server group without profiles was not served as anonymous: "+o.canon()+served(o), replay())
 		}
 
 		return
@@ -1325,6 +1348,10 @@ type pending struct {
 	lineIdx int
 	got     string
 	ops     func() any
+	// coarse: the real side was observed by a network client, which cannot
+	// tell error classes and the reasons of silent drops apart.
+	// (1; 2: over DoQ, where every request without an answer gets SERVFAIL).
+	coarse int
 }
 
 type runner struct {
@@ -1343,6 +1370,9 @@ func (rn *runner) flush() {
 	rn.m.ResetLog()
 	ans := rn.m.Batch(rn.lines)
 	for _, p := range rn.pend {
+		if p.coarse > 0 {
+			ans[p.lineIdx] = coarse(ans[p.lineIdx], p.coarse == 2)
+		}
 		if ans[p.lineIdx] != p.got {
 			rn.r.Disagree("find", fmt.Sprintf("stack=%q model=%q for %s", p.got, ans[p.lineIdx], rn.lines[p.lineIdx]), p.ops())
 		}
@@ -1466,19 +1496,40 @@ func main() {
 		"records are compared with the Lean model and checked by an independent oracle of the property; a case is non-trivial when the " +
 		"result is not plain not-found; distinct = distinct (server, DB state, request) triples; in the store campaign the database is the real " +
 		"profiledb.Default fed by the real backendpb.ProfileStorage (in-process gRPC backend) and by its own cache file, and the DB state is the " +
-		"harness's reading of the backend's messages in force"
+		"harness's reading of the backend's messages in force; in the wired campaign the servers are those the real builder (internal/cmd) makes of a " +
+		"generated configuration file with several server groups, in the listener campaign that service is started and asked over real sockets " +
+		"(plain DNS, DoT, DoH over HTTP/1.1 and HTTP/2, DoQ)"
 	m := hlib.StartModel(o.Model, "C03")
 	defer m.Close()
 
 	w := buildWorld()
 	rn := &runner{r: r, m: m, c: &checker{r: r}}
 
-	randomCampaign(o, rn, w)
-	nonASCIICampaign(o, rn, w)
-	httpCampaign(o, rn, w)
-	overlapCampaign(o, rn, w)
-	storeCampaign(o, rn)
-	if o.Thorough() {
+	// C03_ONLY (debugging aid): run only the named campaigns.
+	only := os.Getenv("C03_ONLY")
+	want := func(name string) bool { return only == "" || strings.Contains(only, name) }
+	if want("random") {
+		randomCampaign(o, rn, w)
+	}
+	if want("nonascii") {
+		nonASCIICampaign(o, rn, w)
+	}
+	if want("http") {
+		httpCampaign(o, rn, w)
+	}
+	if want("overlap") {
+		overlapCampaign(o, rn, w)
+	}
+	if want("store") {
+		storeCampaign(o, rn)
+	}
+	if want("wired") {
+		wiredCampaign(o, rn)
+	}
+	if want("listener") {
+		listenerCampaign(o, rn)
+	}
+	if o.Thorough() && want("exhaustive") {
 		exhaustiveCampaign(o, rn, w)
 	}
 	rn.flush()
